@@ -380,3 +380,45 @@ Example C12_ex_region_table :
       /\ map fst (x_regions (cleanup_regions doc)) = [RId 0; RId 1]
       /\ doc_refs doc = [RId 0; RId 1; RId 0]).
 Proof. vm_compute. repeat split. Qed.
+
+(* ==== wave 7: "cue settings read from a WebVTT file are written back verbatim" - the READER's side =================== *)
+From PV Require Import model.TimeRead model.VttSettings proofs.Pos12VttSettingsFacts.
+
+(* a timing line  <token> <blanks> --> <blanks> <token> <blanks> <settings> <trailing blanks> : the reader keeps exactly
+   <settings> (any text without white space at its two ends: inner blanks and tabs, commas, upper case, unknown keys) as
+   Layout.webvtt_positioning; vtt_cue_settings is the function TIMING_LINE_PATTERN's group 3 computes (request 1213) *)
+Theorem C12_vtt_reader_keeps_settings : forall t1 t2 w1 w2 w3 s w4,
+  token t1 -> token t2 -> blanks w1 -> blanks w2 -> blanks w3 -> forallb is_space w4 = true -> clean_settings s ->
+  vtt_cue_settings (t1 ++ w1 ++ arrow ++ w2 ++ t2 ++ w3 ++ s ++ w4) = Some (Some s).
+Proof. intros t1 t2 w1 w2 w3 s w4 T1 T2 W1 W2. exact (reader_keeps_settings t1 t2 w1 w2 T1 T2 W1 W2 w3 s w4). Qed.
+Print Assumptions C12_vtt_reader_keeps_settings.
+
+(* nothing, or white space only, after the end time: no layout *)
+Theorem C12_vtt_reader_no_settings : forall t1 t2 w1 w2 w4,
+  token t1 -> token t2 -> blanks w1 -> blanks w2 -> forallb is_space w4 = true ->
+  vtt_cue_settings (t1 ++ w1 ++ arrow ++ w2 ++ t2 ++ w4) = Some None.
+Proof. intros t1 t2 w1 w2 w4 T1 T2 W1 W2. exact (reader_no_settings t1 t2 w1 w2 T1 T2 W1 W2 w4). Qed.
+Print Assumptions C12_vtt_reader_no_settings.
+
+(* whatever the reader keeps has no white space at either end ... *)
+Theorem C12_vtt_reader_settings_clean : forall line s, vtt_cue_settings line = Some (Some s) -> clean_settings s.
+Proof. exact reader_settings_clean. Qed.
+Print Assumptions C12_vtt_reader_settings_clean.
+
+(* ... so read -> write -> read is the identity on cue settings: the timing line the writer prints for the settings read
+   from ANY line (C12_vtt_settings_verbatim: " " + the raw string after the time stamps) reads back as the same settings *)
+Theorem C12_vtt_settings_read_write_read : forall line s ts1 ts2, vtt_cue_settings line = Some (Some s) -> token ts1 -> token ts2 ->
+  vtt_cue_settings (vtt_timing_text ts1 ts2 (VRaw s)) = Some (Some s).
+Proof. exact settings_read_write_read. Qed.
+Print Assumptions C12_vtt_settings_read_write_read.
+
+Example C12_ex_reader_settings :
+  vtt_cue_settings (lit "00:01.000 --> 00:02.000  position:10%,start  Line:5%  ") = Some (Some (lit "position:10%,start  Line:5%"))
+  /\ vtt_cue_settings (lit "00:01.000 --> 00:02.000   ") = Some None
+  /\ vtt_cue_settings (lit "00:01.000-->00:02.000 a:b") = None
+  /\ clean_settings (lit "position:10%,start  Line:5%") /\ token (lit "00:01.000") /\ blanks (lit "  ").
+Proof.
+  split; [vm_compute; reflexivity|]. split; [vm_compute; reflexivity|]. split; [vm_compute; reflexivity|].
+  split; [|split; split; (discriminate || reflexivity)].
+  exists 112, (lit "osition:10%,start  Line:5"). split; [right; exists 37; split; reflexivity|reflexivity].
+Qed.
